@@ -90,6 +90,9 @@ InitStreamsOne == {{"params"}}
 \* focused alphabet: a jitted child with a nested child that draws keys, called twice (trace-cache hit on the second call)
 AlphabetJit == {OpE("MA", "a", "jit"), OpE("MB", "b", "none"), OpE("MB", "", "jit"), OpK("drop"), OpL(FALSE), OpL(TRUE)}
 
+\* focused alphabet: auto-named children created inside and after a function-style lifted block on the running module
+AlphabetBlock == {OpG("remat"), OpE("MB", "", "none"), OpE("MB", "", "remat"), OpP("a"), OpL(FALSE)}
+
 (***************************************************************************)
 (* Scope helpers                                                           *)
 (***************************************************************************)
